@@ -97,6 +97,53 @@ def h_combine_counts_structure(mult: List[int], vals: List[int]) -> bool:
     return len(out) == len(mult)
 
 
+def h_combine_counts_counter(mult: List[int], vals: List[int], alias: bool) -> bool:
+    """
+    pre: 1 <= len(mult) <= 2 and all(1 <= k <= 3 for k in mult) and len(vals) == 6 and all(0 <= v for v in vals)
+    post: _
+    """
+    return _combine_counts_kinds(mult, vals, 1, alias)
+
+
+def h_combine_counts_ordered(mult: List[int], vals: List[int], alias: bool) -> bool:
+    """
+    pre: 1 <= len(mult) <= 2 and all(1 <= k <= 3 for k in mult) and len(vals) == 6 and all(0 <= v for v in vals)
+    post: _
+    """
+    return _combine_counts_kinds(mult, vals, 2, alias)
+
+
+def _combine_counts_kinds(mult, vals, kind, alias):
+    # per-copy results of every mapping kind a runner may hand back (dict, collections.Counter, OrderedDict); with `alias` a
+    # memoising runner returns ONE object for the identical copies of a circuit; the same results are combined twice
+    import collections
+    make = [dict, collections.Counter, collections.OrderedDict][kind]
+    ms = []
+    pos = 0
+    for i, k in enumerate(mult):
+        if alias:
+            shared = make({"00": vals[i], "1" + str(i % 2): 1})
+            ms += [shared] * k
+        else:
+            ms += [make({"00": vals[pos + j], "1" + str(j % 2): 1}) for j in range(k)]
+        pos += k
+    snapshot = [dict(d) for d in ms]
+    out = IT.combine_measurement_counts(ms, mult)
+    if [dict(d) for d in ms] != snapshot:
+        return False          # the runner's results must not change
+    pos = 0
+    for i, k in enumerate(mult):
+        want = {}
+        for d in snapshot[pos:pos + k]:
+            for key, c in d.items():
+                want[key] = want.get(key, 0) + c
+        if dict(out[i]) != want:
+            return False
+        pos += k
+    out2 = IT.combine_measurement_counts(ms, mult)
+    return [dict(o) for o in out2] == [dict(o) for o in out] and len(out) == len(mult)
+
+
 def h_combine_bitstrings(mult: List[int], lens: List[int], alias: bool) -> bool:
     """
     pre: 1 <= len(mult) <= 2 and all(1 <= k <= 2 for k in mult) and len(lens) == 4 and all(0 <= v <= 2 for v in lens)
